@@ -25,7 +25,8 @@ def build(world):
     return gu.mk(transport_c.units(world))
 
 
-STREAMS = [b"1;2;3;0;0;x\n", b"a\nb\n", b"\n\n", b"\xff\xfe\n", b"abc", b"", b"ok\n\xc3", b"\xc3\xa9;1\nz\n", b"x" * 70000 + b"\n"]
+STREAMS = [b"1;2;3;0;0;x\n", b"a\nb\n", b"\n\n", b"\xff\xfe\n", b"abc", b"", b"ok\n\xc3", b"\xc3\xa9;1\nz\n", b"x" * 70000 + b"\n",
+           b"x" * 70000 + b"\n1;1;1;0;0;20.5\n", b"\xff\n1;1;1;0;0;20.5\n"]
 
 
 def feed_and_read(data, chunks):
@@ -49,12 +50,13 @@ def feed_and_read(data, chunks):
         r.feed_data(data[pos:])
         r.feed_eof()
         got = []
-        while True:
+        after_error = 0
+        while after_error < 3:
             try:
                 got.append(("line", await t.read()))
             except TransportError as e:
                 got.append(("transport-error", type(e).__name__))
-                break
+                after_error += 1  # keep reading: what follows an error must still be an error or a real line of the stream
             except Exception as e:  # noqa: BLE001
                 got.append(("OTHER", type(e).__name__))
                 break
@@ -87,8 +89,21 @@ def native_search(tier="quick"):
             n += 1
             exp = expected(data)
             norm = [(k, v if k == "line" else None) for k, v in got]
-            if any(k == "OTHER" for k, _ in got) or norm != exp:
-                return {"stream": repr(data[:40]), "chunks": ch, "observed": got[:4], "expected": exp[:4]}, n
+            first_err = next((i for i, (k, _) in enumerate(norm) if k != "line"), len(norm))
+            bad = any(k == "OTHER" for k, _ in got) or norm[:first_err + 1] != exp
+            # after the first error: only further errors, or lines of the stream that come later, in order (a resync is allowed)
+            real = [l + b"\n" for l in data.split(b"\n")[:-1]]
+            idx = first_err  # number of lines consumed so far (the failed one is skipped below if it was a complete line)
+            for k, v in norm[first_err + 1:]:
+                if k == "line":
+                    later = [j for j in range(idx, len(real)) if real[j].decode("utf-8", "replace") == v]
+                    if not later:
+                        bad = True
+                        break
+                    idx = later[0] + 1
+            if bad:
+                return {"stream": repr(data[:40]) + (f"...({len(data)} bytes)" if len(data) > 40 else ""), "chunks": ch,
+                        "observed": [(k, (v[:30] + "...") if isinstance(v, str) and len(v) > 30 else v) for k, v in got[:5]], "expected": exp[:4]}, n
     return None, n
 
 
